@@ -90,8 +90,10 @@ def gen_inputs(rng, max_stride, eff, extra_bad):
     """A sequence of 1-3 calls; sides are multiples of the configured max_stride;
     sometimes one call with a side that is not (correspondence only)."""
     cap = max(1, 192 // max_stride)
-    n = rng.choice([1, 2, 2, 3])
+    n = rng.choice([1, 2, 2, 3, 4])
     seq = [[max_stride * rng.randint(1, min(3, cap)), max_stride * rng.randint(1, min(3, cap))] for _ in range(n)]
+    if n >= 3 and rng.random() < 0.5:
+        seq[-1] = list(seq[0])                     # come back to the first size after other sizes
     if extra_bad and rng.random() < 0.3:
         h = max_stride * rng.randint(1, 2) + rng.choice([1, max(1, max_stride // 2), max_stride - 1])
         seq.insert(rng.randrange(len(seq) + 1), [h, max_stride * rng.randint(1, 2)])
@@ -107,9 +109,9 @@ def gen_unet(rng, light=False):
     s = rng.random()
     stem = None if s < 0.5 else 2 ** rng.randint(0 if s > 0.95 else 1, n)
     cpb = rng.choice([1, 2, 2, 2, 2, 3, 3])
-    cfg = {"in_channels": rng.choice([1, 3]), "kernel_size": rng.choice([3, 3, 5]), "filters": filters,
+    cfg = {"in_channels": rng.choice([1, 3]), "kernel_size": rng.choice([1, 3, 3, 5, 7]), "filters": filters,
            "filters_rate": str(rate), "rate_as_float": rng.random() < 0.5, "max_stride": max_stride,
-           "convs_per_block": cpb, "stacks": 1, "stem_stride": stem,
+           "convs_per_block": cpb, "stacks": rng.choice([1, 1, 2, 3]), "stem_stride": stem,
            "middle_block": rng.random() < 0.85, "up_interpolate": rng.random() < 0.5}
     mt, parts, edges, bos, os_c, os_p = gen_heads(rng, n, max_stride)
     cfg["output_stride"] = bos
@@ -130,7 +132,7 @@ def gen_tv(rng, bb, light=False):
     else:
         mtype, arch = rng.choice(sorted(CONVNEXT_TYPES if bb == "convnext" else SWINT_TYPES)), None
     max_stride = 16 if (sps == 2 or rng.random() < 0.5) else 32        # documented: "always 16"
-    cfg = {"in_channels": rng.choice([1, 3]), "model_type": mtype, "arch": arch, "kernel_size": 3,
+    cfg = {"in_channels": rng.choice([1, 3]), "model_type": mtype, "arch": arch, "kernel_size": rng.choice([3, 3, 1, 5]),
            "filters_rate": "2", "rate_as_float": rng.random() < 0.5, "convs_per_block": 2,
            "up_interpolate": rng.random() < 0.5, "stem_patch_stride": sps, "max_stride": max_stride}
     if bb == "convnext":
@@ -203,14 +205,22 @@ def pairs(l):
     return core.clist(l, lambda hw: f"({hw[0]}, {hw[1]})")
 
 
+FX = {"fx17": False, "fx18": False, "fx41": False, "fx42": False}     # set by detect_fx(): which repairs the code has
+
+
+def fx_term():
+    b = core.cbool
+    return ("{| fx17 := %s; fx18 := %s; fx41 := %s; fx42 := %s |}" % (b(FX["fx17"]), b(FX["fx18"]), b(FX["fx41"]), b(FX["fx42"])))
+
+
 def term(c, fixed):
     if c["kind"] == "pool":
         return f"CPool {pairs(c['sizes'])}"
     if c["kind"] == "encoder":
         inner = cfg_term(c)
         assert inner.startswith("(CfgUNet ")
-        return f"CEncoder {inner[len('(CfgUNet '):-1]} {pairs(c['inputs'])}"
-    return (f"CModel {core.cbool(fixed)} {cfg_term(c)} {MT_COQ[c['mt']]} {c['parts']} {c['edges']} "
+        return f"CEncoder {fx_term()} {inner[len('(CfgUNet '):-1]} {pairs(c['inputs'])}"
+    return (f"CModel {core.cbool(fixed)} {fx_term()} {cfg_term(c)} {MT_COQ[c['mt']]} {c['parts']} {c['edges']} "
             f"{c['os_c']} {c['os_p']} {pairs(c['inputs'])}")
 
 
@@ -399,8 +409,17 @@ def valid_config(c):
         all((E * 2 ** i) % nh[i] == 0 for i in range(4))
 
 
-def in_domain(c, H, W):
+def model_max_stride(c):
+    """The max stride of the assembled model: the configured one; with the fx42 repair the
+    ConvNeXt / Swin-T wrappers report max(configured, stem_patch_stride * 2**down_blocks)."""
     ms = c["cfg"]["max_stride"]
+    if FX["fx42"] and c["bb"] != "unet":
+        ms = max(ms, eff_max_stride(c))
+    return ms
+
+
+def in_domain(c, H, W):
+    ms = model_max_stride(c)
     return H > 0 and W > 0 and H % ms == 0 and W % ms == 0
 
 
@@ -468,9 +487,15 @@ def selector_of(c, H, W):
     """The known-finding selector a failing (configuration, input) falls under, or None.
     With the repaired head in_channels rule (F20/F43 fixed in the code under test) those two
     selectors are not offered: a failure is attributed to one of the remaining ones or to none."""
+    repaired = set()
+    if HEAD_RULE_REPAIRED["on"]:
+        repaired |= {"patch_stride_lt_min_output_stride", "head_in_channels_rounding"}
+    for k, name in (("fx17", "unet_no_middle_block"), ("fx18", "unet_convs_per_block_lt_2"),
+                    ("fx41", "head_stride_ge_max_stride"), ("fx42", "configured_max_stride_lt_effective")):
+        if FX[k]:
+            repaired.add(name)
     for name, on in zip(SELECTOR_ORDER, selector_vector(c, H, W)):
-        if on and not (HEAD_RULE_REPAIRED["on"] and name in ("patch_stride_lt_min_output_stride",
-                                                             "head_in_channels_rounding")):
+        if on and name not in repaired:
             return name
     return None
 
@@ -531,21 +556,44 @@ def numeric_check(c, mods, seed):
     g = torch.Generator().manual_seed(seed + 1)
     ch = c["cfg"]["in_channels"]
     x1 = torch.rand((2, ch, step, 2 * step), generator=g)
+    x1[1] = x1[1] * (0.02 if seed % 2 else 40.0)         # mixed-intensity batch: a dim / a bright frame beside a normal one
     x2 = torch.rand((1, ch, 2 * step, step), generator=g)
+    x3 = torch.rand((3, ch, 2 * step, 2 * step), generator=g) * 7.0
     info = {}
+    m_fresh2 = copy.deepcopy(m)
+    m_fresh3 = copy.deepcopy(m)
     with torch.no_grad():
         a = m(x1)
         b = m(x2)
+        m.train()                                         # a training-mode call in between (no optimiser step)
+        m(x3)
+        m.eval()
+        c3 = m(x3)
         a2 = m(x1)
         bf = m_fresh(x2)
+        c3f = m_fresh2(x3)                                # first call of a fresh instance on the third size
+        m_fresh3(x3)
+        af = m_fresh3(x1)                                 # fresh instance that saw the LARGER size first
         singles = [m(x1[k:k + 1]) for k in range(2)]
         swapped = m(torch.flip(x1, dims=[0]))
+        other = x1.clone()
+        other[0] = torch.rand(x1[0].shape, generator=g) * 3.0
+        mate = m(other)                                   # frame 1 beside a different batch-mate
     for k in a:
         if not torch.equal(a[k], a2[k]):
             return f"{k}: two calls on the same input differ (max {float((a[k] - a2[k]).abs().max())})", info
         if not torch.equal(b[k], bf[k]):
             return f"{k}: output depends on an earlier call with another input size " \
                    f"(max {float((b[k] - bf[k]).abs().max())})", info
+        if not torch.equal(c3[k], c3f[k]):
+            return f"{k}: output depends on earlier calls (other sizes, a train() call) " \
+                   f"(max {float((c3[k] - c3f[k]).abs().max())})", info
+        if not torch.equal(a[k], af[k]):
+            return f"{k}: output depends on the size of the first call of the instance " \
+                   f"(max {float((a[k] - af[k]).abs().max())})", info
+        dm = float((a[k][1] - mate[k][1]).abs().max())
+        if dm > 2e-5 + 3e-4 * float(a[k][1].abs().max()):
+            return f"{k}: frame 1 changes with its batch-mate (diff {dm})", info
         if not bool(torch.isfinite(a[k]).all()):
             return f"{k}: non-finite output", info
         for i in range(2):
@@ -557,6 +605,8 @@ def numeric_check(c, mods, seed):
                 return f"{k}: frame {i} depends on the rest of the batch (diff {max(d, d2)})", info
         shp = [int(v) for v in a[k].shape[1:]]
         info.setdefault("shapes", []).append(shp)
+    if [list(v.shape[1:]) for v in c3.values()] != contracted(c, 2 * step, 2 * step):
+        return f"cpu output shapes on the third size != contracted {contracted(c, 2 * step, 2 * step)}", info
     want = contracted(c, step, 2 * step)
     if info["shapes"] != want:
         return f"cpu output shapes {info['shapes']} != contracted {want}", info
@@ -609,6 +659,29 @@ def detect_fixed(mods):
     return bool(r["built"] and r["convs"] and r["convs"][-1][0][0] == 182)
 
 
+def detect_fx(mods):
+    """Which of the proposed repairs (F17, F18, F41, F42) does the code under test have?  Replays the
+    four corpus witnesses; a witness that now meets the contract switches the model to the repaired
+    variant (Shapes.fixes) and withdraws the selector as an excuse."""
+    fx = {"fx17": False, "fx18": False, "fx41": False, "fx42": False}
+    by = {"F17": "fx17", "F18": "fx18", "F41": "fx41"}
+    d = core.CORPUS / "C14"
+    for f in sorted(d.glob("*.json")):
+        key = next((v for k, v in by.items() if f.name.startswith(k + "_")), None)
+        w = json.load(open(f))
+        if key:
+            r = run_impl_model(w, mods)
+            ok = r["built"] and all(call == contracted(w, H, W) for call, (H, W) in zip(r["calls"], w["inputs"]))
+            fx[key] = bool(ok and w["inputs"])
+        elif f.name.startswith("F42_"):
+            try:
+                m = build_impl(w, mods, "meta")
+                fx["fx42"] = int(getattr(m.backbone, "max_stride", 0)) >= eff_max_stride(w) > w["cfg"]["max_stride"]
+            except Exception:
+                fx["fx42"] = False
+    return fx
+
+
 def import_mods():
     core.impl_env_setup()
     import warnings
@@ -627,6 +700,9 @@ def check(run: core.Run) -> int:
     rng = run.rng
     fixed = detect_fixed(mods)
     HEAD_RULE_REPAIRED["on"] = fixed
+    FX.update(detect_fx(mods))
+    run.notes.append("proposed repairs detected in the code (corpus witnesses replayed): " +
+                     ", ".join(f"{k}={'yes' if v else 'no'}" for k, v in sorted(FX.items())))
     run.notes.append(f"head in_channels rule detected in the code: {'repaired (reads the decoder block)' if fixed else 'pinned (recomputed from max_channels)'}")
 
     cases = [dict(c) for c in load_corpus()]
@@ -789,6 +865,7 @@ def check(run: core.Run) -> int:
 def replay(run: core.Run, path: str) -> int:
     mods = import_mods()
     HEAD_RULE_REPAIRED["on"] = detect_fixed(mods)
+    FX.update(detect_fx(mods))
     rep = json.load(open(path))
     c = rep["case"]
     if "numeric" in rep:
@@ -798,7 +875,7 @@ def replay(run: core.Run, path: str) -> int:
     ires = run_impl_model(c, mods)
     bads = []
     for k, (H, W) in enumerate(c["inputs"]):
-        if H % c["cfg"]["max_stride"] or W % c["cfg"]["max_stride"]:
+        if not in_domain(c, H, W):
             continue
         bad = oracle_call(c, H, W, ires["calls"][k] if ires["built"] else None, ires["built"], mods, {})
         if bad:
